@@ -372,6 +372,8 @@ def scen_merge(rng, n):
         ("merge", [[1, 2], [11, 12]]), ("merge", [[1, 2, 3], [11], [21, 22]]), ("merge", [[1], [11], [21]]),
         ("concat", [[1, 2], [11, 12]]), ("zip", [[1, 2], [11, 12]]), ("zip", [[1, 2, 3], [11, 12]]), ("amb", [[1, 2], [11, 12]]),
         ("amb", [[1], [11], [21]]),
+        # three and four inputs on their own threads: the SECOND and later hand-overs of concat; zip / merge with four
+        ("concat", [[1, 2], [11, 12], [21]]), ("concat", [[1], [11], [21], [31]]), ("zip", [[1, 2], [11, 12], [21, 22]]), ("merge", [[1], [11], [21], [31]]),
     ]
     for op, lists in shapes:
         p = "(%s %s)" % (op, " ".join(ts(k, l) for k, l in enumerate(lists)))
